@@ -1,4 +1,5 @@
 """Pool catalogue: instances and hand-written documents (harness data)."""
+from datetime import date as _date
 from decimal import Decimal
 from xml.etree.ElementTree import QName
 
@@ -89,6 +90,9 @@ OBJS = {
         lambda: mb.Order(number=7, item=[_item(1), _item(2, False)], comment="hello", extra={"{urn:e}k": "v", "plain": "w"}),
         "m_basic.Order",
     ),
+    "fault_v1": (lambda: mb.Fault(code=mb.FaultCode.V1_SENDER, sub=[mb.FaultCode.V1_RECEIVER, mb.FaultCode.V2_SENDER], attr_code=mb.FaultCode.V2_SENDER), "m_basic.Fault"),
+    "fault_v2": (lambda: mb.Fault(code=mb.FaultCode.V2_SENDER), "m_basic.Fault"),
+    "formats": (lambda: mb.Formats(b64=b"\x00\x10\x83", b16=b"\xab\xcd", dmy=_date(2020, 2, 1), mdy=_date(2020, 1, 2), plain=XmlDate(2020, 1, 2)), "m_basic.Formats"),
     "price": (lambda: mb.Price(value=Decimal("9.99"), currency="USD"), "m_basic.Price"),
     "catalog": (
         lambda: mb.Catalog(
@@ -231,6 +235,11 @@ _x("hw_order_prefix_rebind", "m_basic.Order", """
 </o:order>""")
 _x("hw_order_other_prefix", "m_basic.Order", """
 <p:order xmlns:p="urn:basic" number="2"><p:item id="3" xmlns:o="urn:p3" refattr="o:x"><p:name>c</p:name><p:ref>o:third</p:ref></p:item></p:order>""")
+_x("hw_fault_c_v1", "m_basic.Fault", """<fault xmlns="urn:basic" xmlns:c="urn:fault:v1" attr_code="c:Receiver"><code>c:Sender</code><sub>c:Receiver</sub></fault>""")
+_x("hw_fault_c_v2", "m_basic.Fault", """<fault xmlns="urn:basic" xmlns:c="urn:fault:v2" attr_code="c:Sender"><code>c:Sender</code></fault>""")
+_x("hw_fault_c_unknown", "m_basic.Fault", """<fault xmlns="urn:basic" xmlns:c="urn:fault:v9"><code>c:Sender</code></fault>""")
+_x("hw_fault_rebind", "m_basic.Fault", """<fault xmlns="urn:basic" xmlns:c="urn:fault:v2"><code>c:Sender</code><sub xmlns:c="urn:fault:v1">c:Sender</sub><sub>c:Sender</sub></fault>""")
+_x("hw_formats_same_lexical", "m_basic.Formats", """<formats xmlns="urn:basic"><b64>ABCD</b64><b16>ABCD</b16><dmy>01/02/2020</dmy><mdy>01/02/2020</mdy><plain>2020-01-02</plain></formats>""")
 _x("hw_catalog", "m_basic.Catalog", """
 <catalog xmlns="urn:basic" updated="2020-01-01T00:00:00"><price currency="JPY">100</price><price>0.5</price><n>1</n><n>-2</n><d>2020-01-01</d></catalog>""")
 _x("hw_point", "m_basic.Point", """<point xmlns="urn:basic" x="3" y="4"><label>a</label><label>b</label></point>""")
@@ -336,6 +345,9 @@ _bx("bad_empty", "m_basic.Item", "")
 # JSON documents: name -> (text, class key or None, needs)
 JSON = {
     "js_item": ('{"id": 5, "name": "j", "qty": 2, "tags": ["a", "b"], "kind": "small", "when": "2020-01-01", "ref": "{urn:refs}t", "flag": false, "price": "1.10", "lang": "en", "version": "1.0"}', "m_basic.Item", None),
+    "js_fault": ('{"code": "{urn:fault:v1}Sender", "sub": ["{urn:fault:v2}Sender"], "attr_code": null}', "m_basic.Fault", None),
+    "js_fault_prefixed": ('{"code": "c:Sender", "sub": [], "attr_code": null}', "m_basic.Fault", None),
+    "js_formats": ('{"b64": "ABCD", "b16": "ABCD", "dmy": "01/02/2020", "mdy": "01/02/2020", "plain": "2020-01-02"}', "m_basic.Formats", None),
     "js_order": ('{"number": 3, "item": [{"id": 1, "name": "a"}, {"id": 2, "name": "b", "level": 2}], "comment": null, "extra": {"k": "v"}}', "m_basic.Order", None),
     "js_order_list": ('[{"number": 1}, {"number": 2, "comment": "c"}]', "list:m_basic.Order", None),
     "js_zoo": ('{"star": {"name": "rex", "bark": 2}, "animal": [{"name": "tom", "lives": 3}, {"name": "plain"}], "thing": 5, "t": ["a", 1]}', "m_xsi.Zoo", None),
